@@ -270,7 +270,8 @@ def state_family(rng, n, kind):
         vals = rng.sample(range(-n - 1, n + 1), n)
     elif kind == 'bigint':
         vals = rng.sample([2 ** 61 - 1, -2 ** 40, 10 ** 12, 7, 2 ** 64 + 3,
-                           -1, 255, 65536], n)
+                           -1, 255, 65536, 2 ** 61, -2 ** 61, 2 ** 31 - 1,
+                           -2 ** 63, 3 * 10 ** 18, 1 << 70], n)
     elif kind == 'str':
         vals = ['s{}'.format(k) for k in rng.sample(range(100), n)]
     elif kind == 'words':
@@ -295,7 +296,7 @@ def state_family(rng, n, kind):
                 for k in rng.sample(range(50), n)]
     elif kind == 'mixed':
         pool = [3, 'three', (3,), 3.5, ('x', 1), 'x', 11, -2, 'S0', (1, 2),
-                0.25, 'A']
+                0.25, 'A', b'3', frozenset([3]), ((3,),), 'true']
         vals = rng.sample(pool, n)
     else:
         raise ValueError(kind)
